@@ -10,7 +10,7 @@ import apistream
 import apimodel
 import specgen
 
-RULE = ('frames of 1..4 channels (8 dtypes, scalar or 2-D), rows 1..10; for each: 4 source kinds x all windows (from, to) incl. open end x '
+RULE = ('frames of 1..4 channels (8 dtypes, scalar or 2-D, with or without a cast dtype incl. narrowing integer casts of out-of-range values), rows 1..10; for each: 4 source kinds x all windows (from, to) incl. open end x '
         'input chunk {None,1,2,3,7} (sampled in quick, exhaustive windows in thorough) x permutation of source fields / datasets x '
         'extra unused datasets x dataset_name mapping. Distinct by (frame index, kind, window, chunk).')
 ASSUMPTIONS = ['h5py / numpy structured-array semantics are trusted']
@@ -32,7 +32,8 @@ def build(chans, kind, rng, perm, sliced=None, vrl=8192):
     items = []
     for c in chans:
         dsn = c.get('dataset')
-        items.append(lf.add_channel(c['name'], data=arrays[c['name']] if kind == 'inline' else None, dataset_name=dsn))
+        items.append(lf.add_channel(c['name'], data=arrays[c['name']] if kind == 'inline' else None, dataset_name=dsn,
+                                    **({'cast_dtype': np.dtype(c['cast'])} if c.get('cast') else {})))
     lf.add_frame('F', channels=items)
     data = None
     extra = rng.random() < 0.5
@@ -90,7 +91,9 @@ def run(ctx):
         nch = rng.randrange(1, 5)
         chans = []
         for j in range(nch):
-            c = datagen.gen_channel(rng, rows, 'CH%d' % j, order='<', layout='C', cast=None)
+            c = datagen.gen_channel(rng, rows, 'CH%d' % j, order='<', layout='C', cast='rand' if rng.random() < 0.6 else None)
+            if c['cast'] and not datagen.cast_is_value_safe(c):
+                c['cast'] = None       # float -> int out of range: platform behaviour, not compared
             if rng.random() < 0.3:
                 c['dataset'] = rng.choice(['data/sub/%d' % j, 'DS%d' % j, '/rooted%d' % j])
             chans.append(c)
@@ -121,7 +124,7 @@ def run(ctx):
                     o = write(df, data, (a, b), chunk, rows)
                     ctx.count('K-sources', key=(k, kind, a, b, chunk))
                     ctx.stat('K-sources', 'kind_' + kind)
-                    det = {'channels': [{kk: c.get(kk) for kk in ('name', 'dtype', 'width', 'seed', 'rows', 'dataset')} for c in chans], 'kind': kind,
+                    det = {'channels': [{kk: c.get(kk) for kk in ('name', 'dtype', 'width', 'seed', 'rows', 'dataset', 'cast')} for c in chans], 'kind': kind,
                            'window': [a, b], 'input_chunk': chunk, 'source_order': perm}
                     if o[0] != 'ok':
                         ctx.violation('write-raises-for-valid-source', {**det, 'impl': o})
